@@ -2424,3 +2424,68 @@ def spec_option_sort_key_kinds(fns, consts):
 SPECS["C02"].append(spec_long_flag_subcommand_value)
 SPECS["C08"].append(spec_long_flag_alias_inference)
 SPECS["C12"].append(spec_option_sort_key_kinds)
+
+
+# ------------------------------------------------------------------ C03/C10: the phases of Validator::validate
+
+def spec_validate_phases(fns, consts):
+    """Validator::validate, every return path: (a) help-instead-of-error is chosen exactly when there is no
+    subcommand, arg_required_else_help is set and the NUMBER OF EXPLICITLY PRESENT ARGUMENTS
+    (`args().filter(check_explicit(IsPresent)).count()`, not a number of values) is zero; (b) a missing
+    subcommand is reported exactly when there is none and one is required; (c) on every other path the
+    conflict pass runs - whatever subcommand_negates_reqs says - and before the required pass; (d) the
+    required pass is skipped exactly when subcommand_negates_reqs is set and a subcommand is present;
+    an error of a pass is returned as it is."""
+    con = contracts.Contracts(fns, default_pure=True)
+    ctx = symex.Ctx(consts, con)
+    fn = _find(fns, "parser/validator.rs", "validate")
+    ex = symex.Exec(ctx, fn, [("opq", "self"), ("opq", "matcher")])
+    ex.run(havoc_unassigned=True, cut_loops=True)
+    obs = []
+
+    def add(msg, pc, neg, block="ret"):
+        obs.append({"fn": fn.name, "block": block, "kind": "spec", "target": "validate_phases", "msg": msg, "pc": list(pc), "neg": neg})
+
+    def sym(rx, ty):
+        ks = [k for k in ctx.keys if re.search(rx, k)]
+        return ctx.keys[ks[0]] if len(ks) == 1 else None
+
+    has_sub = sym(r"^Option::<&str>::is_some\(ArgMatcher::subcommand_name\(", "bool") or sym(r"^is_some\(ArgMatcher::subcommand_name\(", "bool")
+    areh = sym(r"^command::Command::is_arg_required_else_help_set\(", "bool")
+    sreq = sym(r"^command::Command::is_subcommand_required_set\(", "bool")
+    negr = sym(r"^command::Command::is_subcommand_negates_reqs_set\(", "bool")
+    cnt = [k for k in ctx.keys if re.search(r" as Iterator>::count\(", k)]
+    if not all((has_sub, areh, sreq, negr)) or len(cnt) != 1:
+        add("Validator::validate no longer has the reference shape (predicates not found)", [], "true", block="shape")
+        return ctx, obs, [_enc(fn, ex, 0)], con
+    count = ctx.keys[cnt[0]]
+    # the counted iterator: matcher.args() filtered by a closure equal to check_explicit(IsPresent)
+    count_ok = re.search(r"count\(<flat_map::Iter<'_, Id, MatchedArg> as Iterator>::filter::<\{closure@[^}]*\}>\(ArgMatcher::args\(", cnt[0]) is not None and "::map::<" not in cnt[0] and "::sum" not in cnt[0]
+    add("arg_required_else_help counts the explicitly present ARGUMENTS (matcher.args().filter(..).count())", [], "false" if count_ok else "true", block="shape")
+    help_c = f"(and (not {has_sub}) {areh} (= {count} (_ bv0 64)))"
+    miss_c = f"(and (not {has_sub}) {sreq})"
+    for (pc, val), ca in zip(ex.returns, ex.return_callargs):
+        cn = [c[0] for c in ca]
+        is_help = any(x.endswith("Error::display_help_error") for x in cn)
+        is_missing = any(x.endswith("Error::missing_subcommand") for x in cn)
+        i_conf = [i for i, x in enumerate(cn) if x.endswith("::validate_conflicts")]
+        i_req = [i for i, x in enumerate(cn) if x.endswith("::validate_required")]
+        add("help is shown instead of an error exactly when there is no subcommand, arg_required_else_help is set and no argument is explicitly present", pc, f"(not {help_c})" if is_help else help_c)
+        if not is_help:
+            add("a missing subcommand is reported exactly when none is present and one is required", pc, f"(not {miss_c})" if is_missing else miss_c)
+        if is_help or is_missing:
+            add("nothing else is validated once help or a missing subcommand is reported", pc, "true" if (i_conf or i_req) else "false")
+            continue
+        add("the conflict pass runs on every other path, once, and before the required pass", pc, "false" if (len(i_conf) == 1 and (not i_req or i_conf[0] < i_req[0])) else "true")
+        skip_c = f"(and {negr} {has_sub})"
+        conf_err = False
+        if i_conf:
+            r = ex.typed_fresh(f"discr({ca[i_conf[0]][2]})", "isize")[1]
+            conf_err = f"(= {r} (_ bv1 64))" in pc
+        if not conf_err:
+            add("the required pass is skipped exactly when subcommand_negates_reqs is set and a subcommand is present", pc, skip_c if i_req else f"(not {skip_c})")
+    return ctx, obs, [_enc(fn, ex, len(ex.returns))], con
+
+
+SPECS["C03"].append(spec_validate_phases)
+SPECS["C10"].append(spec_validate_phases)
